@@ -290,3 +290,45 @@ def selftest():
     assert not division_ok(3, tri, [None] * 3, [False, False, True])  # border inside a block
     assert sum(1 for _ in connected_partitions(4, grid_edges(2, 2))) == 12
     assert sum(1 for _ in multigraphs(3, 2)) == 1 + 3 + 3 + 3
+
+
+# ---- deterministic "scale" families: deep shapes on larger grids -------------------------
+def serpentine(h, w):
+    """Cells of a winding corridor: even rows full, odd rows a single connector alternating right / left.
+    It is a path (hence a tree) of about h*w/2 cells whose ends are as far apart as the board allows."""
+    cells = []
+    for y in range(h):
+        if y % 2 == 0:
+            cells += [(y, x) for x in range(w)]
+        elif y % 4 == 1:
+            cells.append((y, w - 1))
+        else:
+            cells.append((y, 0))
+    return cells
+
+
+def serpentine_order(h, w):
+    """The serpentine cells in path order (from (0,0) to the far end)."""
+    order = []
+    for y in range(h):
+        if y % 2 == 0:
+            row = [(y, x) for x in range(w)]
+            if (y // 2) % 2 == 1:
+                row.reverse()
+            order += row
+        elif y % 4 == 1:
+            order.append((y, w - 1))
+        else:
+            order.append((y, 0))
+    return order
+
+
+def boustrophedon(h, w):
+    """Hamiltonian path through all cells of the grid, row by row, alternating direction."""
+    out = []
+    for y in range(h):
+        row = [(y, x) for x in range(w)]
+        if y % 2:
+            row.reverse()
+        out += row
+    return out
